@@ -53,6 +53,17 @@ CONCRETE = {   # abstract call kind of Tracker.tla -> concrete model_run calls
               {"builder": "pretty", "entry": "part", "part": "S_DECLARATION", "text": "int = ;"}, {"builder": "pretty", "entry": "part", "part": "S_GUARD", "text": "i < @ 2"},
               {"builder": "pretty", "entry": "property", "text": "A[] ("}],
 }
+# the production zoo as calls: rarely used constructs (gantt charts, dynamic templates, struct initialisers, 3.x syntax, every query form) must
+# not leave process-global state behind either
+import zoo as _zoo
+for _d in _zoo.corpus():
+    if _d["id"] in ("decls", "decls2", "decls3", "xta", "oldxta", "system") or _d["id"].startswith(("label", "oldlabel")):
+        CONCRETE["ok"].append(dict(_d["job"], text=_d["text"]))
+    elif _d["id"].startswith("error"):
+        if _d["job"]["entry"] != "property":
+            CONCRETE["err"].append(dict(_d["job"], text=_d["text"]))
+CONCRETE["ok"].append({"entry": "none", "queries": [q for q in _zoo.QUERIES if q][:40], "query_builder": "tiga"})
+CONCRETE["ok"].append({"entry": "none", "queries": [q for q in _zoo.QUERIES if q][40:], "query_builder": "property"})
 BIG = {"big31": 2 ** 31 - 20, "big32": 2 ** 32 - 20, "big31b": 2 ** 31 - 3, "big32b": 2 ** 32 - 3}
 
 
